@@ -301,6 +301,24 @@ theorem dataset_cache_transparent {env : Env} {ovid cid : Nat} {key pname body :
     r = .ok (out (intOf key o)) :=
   cache_transparent_of_fingerprint_sound (dataset_fingerprint_sound H hk n id msg) hist hD s hempty o ho s1 hs r s2 h
 
+/-- **total version.** From every store satisfying the invariant (the empty one; any store reached by a history of such
+    evaluations) the evaluation TERMINATES, with the uncached outcome, in a store satisfying the invariant again. -/
+theorem cache_transparent_total {env : Env} {run : Run} {x : Expr} {c : Nat} {D : V → Prop}
+    {fp : V → V} {den : V → Except Err V} (H : FingerprintSound env run x c D fp den) (o : V) (ho : D o) (s : St)
+    (hinv : StoreInv c D fp den s) :
+    ∃ s', cachedOp env run x c .evaluate o s = some (den o, s') ∧ StoreInv c D fp den s' := by
+  obtain ⟨r, s', h1, h2, h3⟩ := (tm_cached_evaluate H o ho).run s hinv
+  exact ⟨s', h3 ▸ h1, h2⟩
+
+/-- for the dataset family: every evaluation of the dataset's cached node terminates with `body(p = o[key])` -/
+theorem dataset_evaluation_total {env : Env} {ovid cid : Nat} {key pname body : String} {out : Int → V}
+    (H : SimpleDataset env ovid cid key pname body out) (hk : env.cacheKind cid = .memory) (n id : Nat) (msg : String)
+    (o : V) (ho : DsDict key o) (s : St)
+    (hinv : StoreInv cid (DsDict key) (fun o => .list [.dict [(key, .int (intOf key o))]]) (fun o => .ok (out (intOf key o))) s) :
+    ∃ s', cachedOp env (ev env (n + 9)) (dsInner id ovid msg) cid .evaluate o s = some (.ok (out (intOf key o)), s') :=
+  let ⟨s', h, _⟩ := cache_transparent_total (dataset_fingerprint_sound H hk n id msg) o ho s hinv
+  ⟨s', h⟩
+
 namespace C01Dataset
 /-- a concrete environment of that shape: the body is the opaque user function `load`, the parameter `n` reads `A` -/
 def dEnv : Env :=
